@@ -23,8 +23,48 @@ theorem rep2r : Represents TH ps2r root2 S2 := by
   · subst h; rfl
   · exact slots2r_ok q h
 
+theorem oldTot2r (P : PageId) (hne : P ≠ [0]) : oldTot ps2r P = 0 := by
+  unfold oldTot
+  by_cases h0 : P = []
+  · subst h0; rfl
+  · simp [ps2r, h0, hne]
+
+theorem origins2r : OriginsOK ps2r := by
+  intro P
+  have hz : ∀ Q : PageId, Q ≠ [] → fullSum ps2r Q = 0 := by
+    intro Q hQ
+    apply fullSum_zero_of_children
+    intro ci
+    apply oldTot2r
+    intro e
+    cases Q with
+    | nil => exact hQ rfl
+    | cons x xs => simp at e
+  by_cases h0 : P = []
+  · subst h0; rfl
+  · unfold originOK
+    have := hz P h0
+    cases hg : ps2r.get P with
+    | none => simp only [decide_eq_true_eq]; omega
+    | some x =>
+      obtain ⟨pg, o⟩ := x
+      cases o with
+      | persisted b => rfl
+      | reconstructed pl cl d => simp only [decide_eq_true_eq]; omega
+
 theorem psok2r : G.PSOK ps2r steps2 := by
-  refine ⟨fun _ => by simp [ps2r], ?_⟩
+  refine ⟨fun _ => by simp [ps2r], ?_, origins2r, ?_⟩
+  rotate_left
+  · intro s hs _ q hq h6
+    simp only [steps2, List.mem_singleton] at hs
+    rw [hs] at hq
+    have hl : 7 ≤ q.length := by
+      have := hq.length_le
+      simpa [t2] using this
+    have hsl : 2 ≤ (sextetsOf q).length := by rw [sextetsOf_length]; omega
+    have h1 : sextetsOf q ≠ [] := by intro e; rw [e] at hsl; simp at hsl
+    have h2 : sextetsOf q ≠ [0] := by intro e; rw [e] at hsl; simp at hsl
+    simp [ps2r, h1, h2]
   intro s hs _ Q hQ
   simp only [steps2, List.mem_singleton] at hs
   rw [hs] at hQ
